@@ -925,6 +925,12 @@ func (e *Engine) popFrame(st *State, f *Frame, res Value) int {
 		return stDone
 	}
 	c := st.top()
+	if f.goFrame {
+		// a deferred goroutine that was run while its spawner waited has finished: the spawner's
+		// blocking instruction re-executes
+		st.goDepth--
+		return stCont
+	}
 	if f.catch {
 		// vPanics(f) returned normally
 		ci := c.blk.Instrs[c.ip].(*ssa.Call)
@@ -1196,7 +1202,12 @@ func (e *Engine) doGo(st *State, f *Frame, x *ssa.Go) int {
 			cur = c64(0)
 		}
 		st.ghost[k] = Add(cur, c64(1))
-		e.res.Stubs["go statement skipped ("+siteFn(x)+")"]++
+		e.res.Stubs["go statement deferred ("+siteFn(x)+")"]++
+		// the goroutine is not run now; it is run (one admissible schedule) if and when the spawning
+		// goroutine has to wait for something (see blocked)
+		if fv, args, r := e.resolveCallee(st, f, x.Common(), x); r == stCont && fv != nil && fv.fn != nil {
+			st.pendingGo = append(st.pendingGo[:len(st.pendingGo):len(st.pendingGo)], &Deferred{fn: fv, args: args, ins: x})
+		}
 		f.ip++
 		return stCont
 	}
